@@ -71,6 +71,8 @@ type FuncVC struct {
 	revealed        []string
 	footprints      map[string][]HeapKey
 	appNames        map[string]string
+	sideStack       [][]string
+	pureEnsDepth    int
 	binderDepth     int // >0 while evaluating under a quantifier: no facts may be emitted (they would mention bound variables)
 }
 
@@ -394,7 +396,7 @@ func (fv *FuncVC) store(st *State, a *Addr, v Val) {
 	case AElem:
 		for j, k := range fv.m.ElemKeys(a.T) {
 			h := fv.m.heapGet(st, k)
-			fv.m.heapSet(st, k, Store(h, a.Arr, Store(Select(h, a.Arr), a.Idx, v.C[j])))
+			fv.m.heapSetAt(st, k, a.Arr, Store(h, a.Arr, Store(Select(h, a.Arr), a.Idx, v.C[j])))
 		}
 	}
 }
@@ -449,6 +451,7 @@ func (fv *FuncVC) typeID(t types.Type) string {
 func (fv *FuncVC) alloc(st *State) string {
 	r := fv.ctx.Fresh("new", SInt)
 	fv.ctx.Assume(And(Eq(r, st.cnt), fmt.Sprintf("(> %s 0)", r)))
+	st.noteAlloc(r)
 	st.cnt = fmt.Sprintf("(+ %s 1)", r)
 	return r
 }
@@ -697,6 +700,7 @@ func (fv *FuncVC) loopHeader(fr *Frame, h *ssa.BasicBlock, cur *State, reach str
 		fv.ctx.nfresh++
 		cur.heap = map[string]string{}
 		cur.epoch = 1000000 + fv.ctx.nfresh
+		cur.touch()
 	} else {
 		general, gall := fv.loopGeneralWrites(fr, li)
 		for _, k := range keys {
@@ -863,11 +867,11 @@ func (fv *FuncVC) execBlock(fr *Frame, b *ssa.BasicBlock, st *State, reach strin
 			k := fv.mapKeyTerm(fv.get(fr, x.Key))
 			dk := fv.m.MapDomKey(mt)
 			d := fv.m.heapGet(st, dk)
-			fv.m.heapSet(st, dk, Store(d, mv.One(), Store(Select(d, mv.One()), k, "true")))
+			fv.m.heapSetAt(st, dk, mv.One(), Store(d, mv.One(), Store(Select(d, mv.One()), k, "true")))
 			val := fv.get(fr, x.Value)
 			for j, vk := range fv.m.MapValKeys(mt) {
 				h := fv.m.heapGet(st, vk)
-				fv.m.heapSet(st, vk, Store(h, mv.One(), Store(Select(h, mv.One()), k, val.C[j])))
+				fv.m.heapSetAt(st, vk, mv.One(), Store(h, mv.One(), Store(Select(h, mv.One()), k, val.C[j])))
 			}
 		case *ssa.Defer, *ssa.RunDefers:
 			// the module's defers are mutex unlocks / file closes; no effect on modelled state
@@ -1114,7 +1118,7 @@ func (fv *FuncVC) execValue(fr *Frame, b *ssa.BasicBlock, st *State, reach strin
 		mt := x.Type().Underlying().(*types.Map)
 		dk := fv.m.MapDomKey(mt)
 		d := fv.m.heapGet(st, dk)
-		fv.m.heapSet(st, dk, Store(d, r, fmt.Sprintf("((as const (Array %s Bool)) false)", fv.m.keySort(mt.Key()))))
+		fv.m.heapSetAt(st, dk, r, Store(d, r, fmt.Sprintf("((as const (Array %s Bool)) false)", fv.m.keySort(mt.Key()))))
 		return Val{T: x.Type(), C: []string{r}}
 	case *ssa.MakeSlice:
 		r := fv.alloc(st)
@@ -1201,10 +1205,10 @@ func (fv *FuncVC) zeroElems(st *State, arr string, et types.Type) {
 				fv.ctx.Const(name, ArrSort(SInt, cs[j].Sort))
 				fv.ctx.axioms = append(fv.ctx.axioms, fmt.Sprintf("(forall ((i Int)) (! (= (select %s i) %s) :pattern ((select %s i))))", name, z, name))
 			}
-			fv.m.heapSet(st, k, Store(h, arr, name))
+			fv.m.heapSetAt(st, k, arr, Store(h, arr, name))
 			continue
 		}
-		fv.m.heapSet(st, k, Store(h, arr, fmt.Sprintf("((as const (Array Int %s)) %s)", cs[j].Sort, z)))
+		fv.m.heapSetAt(st, k, arr, Store(h, arr, fmt.Sprintf("((as const (Array Int %s)) %s)", cs[j].Sort, z)))
 	}
 }
 
@@ -1386,7 +1390,7 @@ func (fv *FuncVC) convert(fr *Frame, st *State, reach string, x *ssa.Convert) Va
 			if et.Kind() == types.Int32 {
 				f = "runes_of"
 			}
-			fv.m.heapSet(st, k, Store(h, r, App(f, v.C[0])))
+			fv.m.heapSetAt(st, k, r, Store(h, r, App(f, v.C[0])))
 		}
 		return Val{T: x.Type(), C: []string{r, "0", ln}}
 	}
